@@ -1164,9 +1164,10 @@ class HTMLDocument:
             and isinstance(content[0], Tag)
             and cast(Tag, content[0]).name == "html"
         ):
-            html = cast(Tag, content[0])
+            # Copy before applying the html attributes, so that rendering does not
+            # modify the tag object that the caller passed in.
+            html = cast(Tag, content[0]).tagify()
             html.attrs.update(**self._html_attr_args)
-            html = html.tagify()
             html = HTMLDocument._hoist_head_content(html, lib_prefix, include_version)
             return html
 
